@@ -78,10 +78,10 @@ Sel(verts, cells, ar, box, inv) ==
     LET nv == Len(verts)
         nc == Len(cells)
         \* utils.mask_by_extent on the vertices (points.py:67, cell_object.py:65); this is also
-        \* Data.mask_by_extent of VERTEX data (data.py:248)
+        \* Data.mask_by_extent of VERTEX data (data.py:248-249)
         q == [i \in 1..nv |-> QualifiesD(verts[i], box, inv, Open)]
         \* cell_object.py:69  np.all(vert_mask[self.cells], axis=1) ; also Data.mask_by_extent of
-        \* CELL data on a cell object (data.py:254-257)
+        \* CELL data on a cell object (data.py:255-257)
         ck == [c \in 1..nc |-> IF "AnyVertex" \in Deviations
                                THEN \E a \in 1..ar : q[cells[c][a] + 1]
                                ELSE \A a \in 1..ar : q[cells[c][a] + 1]]
@@ -100,7 +100,7 @@ Sel(verts, cells, ar, box, inv) ==
         \* what the code returns None for: a miss (both classes), an empty selection (cell objects,
         \* cell_object.py:74).  Points return an all-False mask / an empty copy instead.
         code_none |-> miss \/ (ar # 0 /\ ~any),
-        \* points.py:152 vertices[mask] ; cell_object.py:172-182 new_id re-indexing, cells[cell_mask];
+        \* points.py:152 vertices[mask] ; cell_object.py:172-182 new_id re-indexing, new_cells[cell_mask];
         \* data.py:103 values[mask] for VERTEX data, values[cell_mask] for CELL data
         copy |-> [verts |-> [i \in 1..Len(kept) |-> kept[i] - 1],
                   cells |-> [c \in 1..Len(keptc) |->
